@@ -180,13 +180,15 @@ def r2(ctx: Ctx) -> None:
     ctx.ob("C09.R2", f, "writers choose their own (fresh) path", bad[0] if bad else None, not bad,
            "create_manifest_file / create_manifest_list_file are never told to write to an existing path")
     # appended rewritten manifests come from create_manifest_file
+    ml = ctx.calls(f, name="create_manifest_list_file")
+    listvar = norm_text(ml[0].ast.args[0]) if ml and isinstance(ml[0].ast, ast.Call) and ml[0].ast.args else "final_manifests"
     for n in g.calls():
         a = n.ast
         if isinstance(a, ast.Call) and isinstance(a.func, ast.Attribute) and a.func.attr == "append" \
-                and norm_text(a.func.value) == "final_manifests" and a.args:
+                and norm_text(a.func.value) == listvar and a.args:
             org = sl.origins(a.args[0], n.id)
             from_new = any(isinstance(c, ast.Call) and (dotted(c.func) or "").endswith("create_manifest_file") for c in org["calls"])
-            from_old = "manifest" in org["names"] and not from_new
+            from_old = any(isinstance(c, ast.Call) and (dotted(c.func) or "").endswith("read_manifest_list_file") for c in org["calls"]) and not from_new
             ctx.ob("C09.R2", f, "final_manifests.append source", n, from_new or from_old,
                    "a manifest in the new list is either an unchanged existing manifest or a newly created one "
                    f"({'new' if from_new else 'existing (unchanged)'})")
